@@ -7,6 +7,7 @@ import traceback
 sys.path.insert(0, os.path.dirname(os.path.abspath(__file__)))
 import common
 import facts
+import layout
 import tir
 
 
@@ -32,7 +33,12 @@ def main():
         rep = common.Report(pid, tier)
         rep.note("facts: %d bodies, source hash %s, cache %s" % (len(doc["bodies"]), doc["source_hash"][:16], doc.get("_cache")))
         rep.counts["functions_analysed"] = len([b for b in doc["bodies"] if b["kind"] in ("Fn", "AssocFn")])
-        return mod.run(F, rep, tier)
+        try:
+            return mod.run(F, rep, tier)
+        except layout.Unsupported as e:
+            # a construct outside an engine's fragment that no rule caught locally: fail closed as a violation
+            rep.cannot("fragment", pid, e)
+            return rep.finish("other", "aborted: construct outside the analysable fragment (fail closed)", "./check %s --tier %s" % (pid, tier))
     except common.Broken as e:
         print("CHECKER-BROKEN %s: %s" % (pid, e))
         return common.EXIT_BROKEN
